@@ -346,6 +346,7 @@ kop_print(const kop_t *op, vh_buf_t *b) {
       break;
     case OP_CALL: vb_printf(b, "C"); break;
     case OP_REOPEN: vb_printf(b, "O"); break;
+    case OP_SSTREN: vb_printf(b, "X"); break;
     case OP_SNAP: vb_printf(b, "S"); break;
     case OP_REL: vb_printf(b, "s%d", op->idx); break;
     case OP_ITOPEN: vb_printf(b, "I"); break;
@@ -417,6 +418,7 @@ kop_parse(kop_t *op, const char *s, const char **end) {
     case 'F': op->kind = OP_FLUSH; s++; break;
     case 'C': op->kind = OP_CALL; s++; break;
     case 'O': op->kind = OP_REOPEN; s++; break;
+    case 'X': op->kind = OP_SSTREN; s++; break;
     case 'S': op->kind = OP_SNAP; s++; break;
     case 'I': op->kind = OP_ITOPEN; s++; break;
     case 'W': op->kind = OP_DRAIN; s++; break;
@@ -703,6 +705,25 @@ kh_apply(khist_t *h, const kop_t *op) {
       kh_close(h);
       rc = kh_open(h);
       break;
+    case OP_SSTREN: {
+      /* close; give every table the legacy LevelDB name NNNNNN.sst; reopen */
+      char names[256][64];
+      int nn, q;
+      h->iter_open_at_structural = 0;
+      kh_close(h);
+      nn = vfs_list(vfs_cur, h->dbname, names, 256);
+      for (q = 0; q < nn; q++) {
+        size_t l = strlen(names[q]);
+        if (l > 4 && strcmp(names[q] + l - 4, ".ldb") == 0) {
+          char a[400], b2[400];
+          snprintf(a, sizeof(a), "%s/%s", h->dbname, names[q]);
+          snprintf(b2, sizeof(b2), "%s/%.*s.sst", h->dbname, (int)(l - 4), names[q]);
+          rename(a, b2);
+        }
+      }
+      rc = kh_open(h);
+      break;
+    }
     case OP_SNAP:
       if (h->nsnaps < KH_MAXSNAP) {
         h->snaps[h->nsnaps].snap = ldb_snapshot(h->db);
